@@ -134,7 +134,12 @@ class Gen:
             elif r < 0.5 and want:
                 a = want[0]
                 ind_v = rnd.choice(["True", "[\"%s\"]" % a, "False", "[\"nope\"]", "(\"%s\",)" % a])
-                names_s = rnd.choice([a, a + ", extra", " " + a + " "])
+                # the name also occurs EARLIER in the literal as a part of a longer identifier
+                # (underscore-joined, prefixed, suffixed): its span is the whole-token occurrence
+                names_s = rnd.choice([a, a + ", extra", " " + a + " ", a + "_session," + a, "user_" + a + ", " + a,
+                                      a + "x," + a, "x" + a + "," + a, a + "_" + a + "," + a])
+                if names_s.count(a) > 1 and rnd.random() < 0.8:
+                    ind_v = "True"      # the argnames literal itself is where the name's span is searched
                 lines.append(ind + "@pytest.mark.parametrize(\"%s\", [1, 2], indirect=%s)" % (names_s, ind_v))
                 self.tags.append("mark:indirect")
             elif r < 0.6:
